@@ -9,7 +9,15 @@ want = sys.argv[1:]
 ids = sorted(d for d in os.listdir(SEEDED) if os.path.isfile(os.path.join(SEEDED, d, "patch.diff")))
 if want: ids = [i for i in ids if any(i.startswith(w) for w in want)]
 summary = []
+DONE = os.environ.get("SEED_DONE_DIR")          # markers shared by several seedall processes working on copies of /verif + /repo
+if os.environ.get("SEED_REVERSE"): ids = ids[::-1]
 for mid in ids:
+    if DONE:
+        os.makedirs(DONE, exist_ok=True)
+        try:
+            fd = os.open(os.path.join(DONE, mid), os.O_CREAT | os.O_EXCL | os.O_WRONLY); os.close(fd)
+        except FileExistsError:
+            continue
     mdir = os.path.join(SEEDED, mid); meta_p = os.path.join(mdir, "meta.json")
     meta = json.load(open(meta_p)); pid = meta.get("breaks_property") or mid[:3]
     t0 = time.time()
